@@ -365,9 +365,12 @@ class BPTC19696:
             if row < 1:
                 # R(3) has no place in the table, it is kept as received
                 continue
-            bits[data_index if deinterleaved else interleave_index] = table[row - 1][
-                column
-            ]
+            # deinterleaved bits are in the order deinterleave_all_bits returns them
+            bits[
+                BPTC19696.FULL_INTERLEAVING_MAP[interleave_index]
+                if deinterleaved
+                else interleave_index
+            ] = table[row - 1][column]
 
         return bits
 
